@@ -734,7 +734,7 @@ func main() {
 		"Avoided input classes (proposed known findings): chains whose first word is a type name, values of types from other packages (unexported members), two promoted members of equal name at equal depth. "+
 		"A case is non-trivial when it has at least one completion; distinct by SHA-256 of (state declarations, line, cursor)")
 	// generous: creating an interpreter state (fast.New + imports + declarations) is slow on a loaded machine
-	wd := vh.NewWatchdog(rep, 120*time.Second)
+	wd := vh.NewWatchdog(rep, 180*time.Second)
 	wd.Beat("fresh interpreter: names exposed through one-letter prefixes")
 
 	// ---- universe of a fresh interpreter, through one-letter prefixes (what the interpreter exposes)
